@@ -1,0 +1,45 @@
+//go:build verif
+
+package types
+
+// Contracts for the deductive verifier in /verif (govc). Comment-only; compiled only with -tags verif.
+//
+// The recovery store routes "subject/..." keys to the subject client's store and "substitute/..." keys to
+// the substitute's store; only the subject store may ever be written.
+
+//@ spec func viewsDisjoint(a View, b View) bool = viewBranch(a) != viewBranch(b) || viewSvc(a) != viewSvc(b) || (!hasPrefix(prefixOf(a), prefixOf(b)) && !hasPrefix(prefixOf(b), prefixOf(a)))
+
+//@ contract SplitPrefix
+//@   ensures subject: hasPrefix(key, "subject/") ==> str(result0) == "subject/" && str(result1) == substr(str(key), 8, len(key) - 8)
+//@   ensures substitute: !hasPrefix(key, "subject/") && hasPrefix(key, "substitute/") ==> str(result0) == "substitute/" && str(result1) == substr(str(key), 11, len(key) - 11)
+//@   ensures other: !hasPrefix(key, "subject/") && !hasPrefix(key, "substitute/") ==> result0 == nil && str(result1) == str(key)
+
+//@ contract (ClientRecoveryStore).Set
+//@   requires viewsDisjoint(s.subjectStore, s.substituteStore)
+//@   modifies world(s.subjectStore)
+//@   ensures substitute_untouched: forall k string :: vget(s.substituteStore, k) == old(vget(s.substituteStore, k)) && vhas(s.substituteStore, k) == old(vhas(s.substituteStore, k))
+//@   ensures subject_write: hasPrefix(key, "subject/") ==> store(s.subjectStore) == set(old(store(s.subjectStore)), prefixOf(s.subjectStore) + substr(str(key), 8, len(key) - 8), value)
+//@   ensures otherwise_noop: !hasPrefix(key, "subject/") ==> world(s.subjectStore) == old(world(s.subjectStore))
+//@   ensures only_subject_kv: world(s.subjectStore) == withKV(old(world(s.subjectStore)), s.subjectStore, store(s.subjectStore))
+
+//@ contract (ClientRecoveryStore).Delete
+//@   requires viewsDisjoint(s.subjectStore, s.substituteStore)
+//@   modifies world(s.subjectStore)
+//@   ensures substitute_untouched: forall k string :: vget(s.substituteStore, k) == old(vget(s.substituteStore, k)) && vhas(s.substituteStore, k) == old(vhas(s.substituteStore, k))
+//@   ensures subject_delete: hasPrefix(key, "subject/") ==> store(s.subjectStore) == del(old(store(s.subjectStore)), prefixOf(s.subjectStore) + substr(str(key), 8, len(key) - 8))
+//@   ensures otherwise_noop: !hasPrefix(key, "subject/") ==> world(s.subjectStore) == old(world(s.subjectStore))
+
+//@ contract (ClientRecoveryStore).Get
+//@   ensures subject: hasPrefix(key, "subject/") ==> str(result) == vget(s.subjectStore, substr(str(key), 8, len(key) - 8))
+//@   ensures substitute: !hasPrefix(key, "subject/") && hasPrefix(key, "substitute/") ==> str(result) == vget(s.substituteStore, substr(str(key), 11, len(key) - 11))
+//@   ensures other: !hasPrefix(key, "subject/") && !hasPrefix(key, "substitute/") ==> result == nil
+
+//@ contract (ClientRecoveryStore).Has
+//@   ensures subject: hasPrefix(key, "subject/") ==> result == vhas(s.subjectStore, substr(str(key), 8, len(key) - 8))
+//@   ensures substitute: !hasPrefix(key, "subject/") && hasPrefix(key, "substitute/") ==> result == vhas(s.substituteStore, substr(str(key), 11, len(key) - 11))
+//@   ensures other: !hasPrefix(key, "subject/") && !hasPrefix(key, "substitute/") ==> !result
+
+//@ contract (ClientRecoveryStore).GetStore
+//@   ensures subject: str(prefix) == "subject/" ==> result1 && result0 == s.subjectStore
+//@   ensures substitute: str(prefix) == "substitute/" ==> result1 && result0 == s.substituteStore
+//@   ensures other: str(prefix) != "subject/" && str(prefix) != "substitute/" ==> !result1
